@@ -205,9 +205,32 @@ func (m *machine) callFn(g *gor, caller *frame, fn *ssa.Function, args []value, 
 			return r
 		}
 	}
-	if fn.Synthetic == "package initializer" && !allowInit(fn.Pkg.Pkg.Path()) {
-		return nil
+	if fn.Synthetic == "package initializer" {
+		if !allowInit(fn.Pkg.Pkg.Path()) {
+			return nil
+		}
+		if sharedPkg(fn.Pkg) {
+			if m.wk.sharedInit[fn.Pkg] {
+				return nil
+			}
+			done := false
+			defer func() {
+				if !done { // aborted mid-way: forget everything shared, the next path starts over
+					m.wk.sharedGlobals = map[*ssa.Global]*object{}
+					m.wk.sharedInit = map[*ssa.Package]bool{}
+				}
+			}()
+			defer func() { m.wk.sharedInit[fn.Pkg] = done }()
+			r := m.callFnBody(g, caller, fn, args, env, site)
+			done = true
+			return r
+		}
 	}
+	return m.callFnBody(g, caller, fn, args, env, site)
+}
+
+func (m *machine) callFnBody(g *gor, caller *frame, fn *ssa.Function, args []value, env []value, site ssa.Instruction) value {
+	fi := m.p.info(fn)
 	if fn.Blocks == nil {
 		if fn.Synthetic != "" && strings.Contains(fn.Synthetic, "generic") {
 			panic(unsupported("uninstantiated generic " + fn.String()))
@@ -344,6 +367,9 @@ func (fr *frame) run() {
 		}
 		for i := start; i < len(instrs); i++ {
 			m.steps++
+			if stepProf != nil {
+				stepProf[fr.fn.String()]++
+			}
 			fr.g.top, fr.g.cur = fr, instrs[i]
 			if m.steps > m.cfg.maxSteps {
 				m.abort(outBound, "step bound exceeded")
@@ -361,6 +387,10 @@ func (fr *frame) run() {
 		}
 	}
 }
+
+var stepProf map[string]int
+
+var stdSizes = &types.StdSizes{WordSize: 8, MaxAlign: 8}
 
 type cont int
 
@@ -470,12 +500,13 @@ func (fr *frame) exec(instr ssa.Instruction) cont {
 			}
 		}
 	case *ssa.MakeSlice:
-		n := m.concLen(fr, fr.get(instr.Len), "makeslice: len out of range")
-		c := m.concLen(fr, fr.get(instr.Cap), "makeslice: cap out of range")
+		et := instr.Type().Underlying().(*types.Slice).Elem()
+		esz := stdSizes.Sizeof(et)
+		n := m.concLenSz(fr, fr.get(instr.Len), "makeslice: len out of range", esz)
+		c := m.concLenSz(fr, fr.get(instr.Cap), "makeslice: cap out of range", esz)
 		if n > c {
 			m.goPanic(fr, "makeslice: len out of range")
 		}
-		et := instr.Type().Underlying().(*types.Slice).Elem()
 		m.noteAlloc(fr, int(c), et)
 		fr.set(instr, m.makeSlice(et, int(n), int(c)))
 	case *ssa.MakeMap:
@@ -490,6 +521,7 @@ func (fr *frame) exec(instr ssa.Instruction) cont {
 			m.goPanic(fr, "invalid memory address or nil pointer dereference")
 		}
 		p = m.concPtr(fr, p)
+		m.force(fr, p.c)
 		st := (*p.c).(structure)
 		fr.set(instr, ptr{o: p.o, c: &st[instr.Field]})
 	case *ssa.Field:
